@@ -535,6 +535,7 @@ namespace bxdecay0 {
             }
             bb_params_.Qbb  = 0.635;
             bb_params_.Zdbb = 44.; // Rhutenium
+            bb_params_.levelE = 0; // g.s. to g.s. only (the reference falls through to 'if(ilevel.eq.0) levelE=0')
           } else {
             if (ilevel_ < 0 || ilevel_ > 9) {
               std::cerr << "[error] "
@@ -1062,6 +1063,7 @@ namespace bxdecay0 {
             }
             bb_params_.Qbb  = 0.079;
             bb_params_.Zdbb = 58.; // Cerium
+            bb_params_.levelE = 0; // g.s. to g.s. only (the reference falls through to 'if(ilevel.eq.0) levelE=0')
           } else {
             if (ilevel_ < 0 || ilevel_ > 9) {
               std::cerr << "[error] "
@@ -1258,6 +1260,7 @@ namespace bxdecay0 {
             }
             bb_params_.Qbb  = 2.085;
             bb_params_.Zdbb = 64.; // Gadolinium
+            bb_params_.levelE = 0; // g.s. to g.s. only (the reference falls through to 'if(ilevel.eq.0) levelE=0')
           } else {
             if (ilevel_ < 0 || ilevel_ > 5) {
               std::cerr << "[error] "
